@@ -216,14 +216,14 @@ package bytesconv
 //@   ghostset after append#1: qpos[rangeindex + 2] = len(result) - len(old(dst))
 //@   ghostset after append#2: qpos[rangeindex + 2] = len(result) - len(old(dst))
 //@   ensures extends(r, dst) && spareOnly(dst)
-//@   ensures @C17 !sameArray(dst, src) ==> qn == len(src) && forallT(k, 0, qn, qx[k], qx[k] == old(src[k])) && isArgEncoding(r[len(dst):])
+//@   ensures @C17 !mayAlias(dst, src) ==> qn == len(src) && forallT(k, 0, qn, qx[k], qx[k] == old(src[k])) && isArgEncoding(r[len(dst):])
 //@   loop 0:
 //@     invariant -1 <= rangeindex && rangeindex < len(src)
 //@     invariant extends(dst, old(dst)) && spareOnly(old(dst))
 //@     invariant qn == len(src) && qpos[0] == 0 && qpos[rangeindex + 1] == len(dst) - len(old(dst)) && 0 <= qfs && (qfs == len(src) || qfs <= rangeindex)
-//@     invariant !sameArray(old(dst), src) ==> forallT(k, 0, qn, qx[k], qx[k] == src[k])
-//@     invariant !sameArray(old(dst), src) ==> (qfs < len(src) ==> !argPlain(qx[qfs]))
-//@     invariant !sameArray(old(dst), src) ==> encStage(dst[len(old(dst)):], rangeindex + 1)
+//@     invariant !mayAlias(old(dst), src) ==> forallT(k, 0, qn, qx[k], qx[k] == src[k])
+//@     invariant !mayAlias(old(dst), src) ==> (qfs < len(src) ==> !argPlain(qx[qfs]))
+//@     invariant !mayAlias(old(dst), src) ==> encStage(dst[len(old(dst)):], rangeindex + 1)
 
 // C17, path codec: same shape; a token is %XY or the byte itself (never '%' verbatim).
 //@ macro encStageP(e, m) = forallT(j, 0, m, qx[j], 0 <= qx[j] && qx[j] <= 255 && pathTok(e, qpos[j], qx[j], qpos[j+1])) && forallT(j, 0, m + 1, qpos[j], j <= qpos[j] && qpos[j] + (m - j) <= len(e) && (j <= qfs ==> qpos[j] == j))
@@ -244,11 +244,11 @@ package bytesconv
 //@   ghostset after append#2: qpos[rangeindex + 2] = len(result) - len(old(dst))
 //@   assert @C17 before append#2: QuotedPathShouldEscapeTable['%'] != 0
 //@   ensures extends(r, dst) && spareOnly(dst)
-//@   ensures @C17 !sameArray(dst, src) ==> qn == len(src) && forallT(k, 0, qn, qx[k], qx[k] == old(src[k])) && isPathEncoding(r[len(dst):])
+//@   ensures @C17 !mayAlias(dst, src) ==> qn == len(src) && forallT(k, 0, qn, qx[k], qx[k] == old(src[k])) && isPathEncoding(r[len(dst):])
 //@   loop 0:
 //@     invariant -1 <= rangeindex && rangeindex < len(src)
 //@     invariant extends(dst, old(dst)) && spareOnly(old(dst))
 //@     invariant qn == len(src) && qpos[0] == 0 && qpos[rangeindex + 1] == len(dst) - len(old(dst)) && 0 <= qfs && (qfs == len(src) || qfs <= rangeindex)
-//@     invariant !sameArray(old(dst), src) ==> forallT(k, 0, qn, qx[k], qx[k] == src[k])
-//@     invariant !sameArray(old(dst), src) ==> (qfs < len(src) ==> dst[len(old(dst)) + qpos[qfs]] == '%')
-//@     invariant !sameArray(old(dst), src) ==> encStageP(dst[len(old(dst)):], rangeindex + 1)
+//@     invariant !mayAlias(old(dst), src) ==> forallT(k, 0, qn, qx[k], qx[k] == src[k])
+//@     invariant !mayAlias(old(dst), src) ==> (qfs < len(src) ==> dst[len(old(dst)) + qpos[qfs]] == '%')
+//@     invariant !mayAlias(old(dst), src) ==> encStageP(dst[len(old(dst)):], rangeindex + 1)
